@@ -4,13 +4,22 @@ use encoding_rs_io::{DecodeReaderBytes, DecodeReaderBytesBuilder};
 
 use crate::charsets::Charset;
 
+// The streaming decoder needs room for the few bytes it may still owe when the input ends
+// inside a multi-byte sequence; callers' buffers shorter than this are served from `spill`.
+const SPILL_LEN: usize = 32;
+
 /// `TextReader` converts bytes in a specific charset to bytes in UTF-8.
 ///
 /// It can be used to convert a stream of text in a specific charset into a stream
 /// of UTF-8 encoded bytes. The `Read::read_to_string` method can be used to convert
 /// the stream of UTF-8 bytes into a `String`.
 #[derive(Debug)]
-pub struct TextReader<R>(DecodeReaderBytes<R, Vec<u8>>);
+pub struct TextReader<R> {
+    inner: DecodeReaderBytes<R, Vec<u8>>,
+    spill: [u8; SPILL_LEN],
+    spill_pos: usize,
+    spill_len: usize,
+}
 
 impl<R> TextReader<R>
 where
@@ -18,7 +27,12 @@ where
 {
     /// Create a new `TextReader` with the given charset.
     pub fn new(inner: R, charset: Charset) -> Self {
-        Self(DecodeReaderBytesBuilder::new().encoding(Some(charset)).build(inner))
+        Self {
+            inner: DecodeReaderBytesBuilder::new().encoding(Some(charset)).build(inner),
+            spill: [0; SPILL_LEN],
+            spill_pos: 0,
+            spill_len: 0,
+        }
     }
 }
 
@@ -27,7 +41,19 @@ where
     R: Read,
 {
     fn read(&mut self, buf: &mut [u8]) -> io::Result<usize> {
-        self.0.read(buf)
+        if self.spill_pos == self.spill_len {
+            if buf.len() >= SPILL_LEN || buf.is_empty() {
+                return self.inner.read(buf);
+            }
+            // Handed a very short buffer, the decoder writes only part of a replacement
+            // character (invalid UTF-8) or drops output at the end of a truncated body.
+            self.spill_len = self.inner.read(&mut self.spill)?;
+            self.spill_pos = 0;
+        }
+        let n = buf.len().min(self.spill_len - self.spill_pos);
+        buf[..n].copy_from_slice(&self.spill[self.spill_pos..self.spill_pos + n]);
+        self.spill_pos += n;
+        Ok(n)
     }
 }
 
